@@ -206,11 +206,15 @@ func (c *panicClient) reportAs(e *Engine, x, simplified ast.Expr, ok bool, how s
 		if fr := e.Frames(); len(fr) > 0 {
 			f := fr[len(fr)-1]
 			if pkg := c.p.PkgOf(f.Decl.Pos()); pkg != nil && !c.p.isClosureDecl(f.Decl) {
-				k2 := FuncName(pkg, f.Decl) + "|" + c.p.normExpr(c.p.ResolveDeep(simplified))
-				if why, rev := reviewedIndex[k2]; rev {
-					c.used[k2] = true
-					e.Site("C12/panic", site, x, true, "reviewed: "+why)
-					return
+				// (the simplified form may have the helper's receiver and parameters replaced by the caller's values:
+				// the expression as written in the helper is tried as well)
+				for _, form := range []ast.Expr{simplified, x} {
+					k2 := FuncName(pkg, f.Decl) + "|" + c.p.normExpr(c.p.ResolveDeep(form))
+					if why, rev := reviewedIndex[k2]; rev {
+						c.used[k2] = true
+						e.Site("C12/panic", site, x, true, "reviewed: "+why)
+						return
+					}
 				}
 			}
 		}
@@ -1029,7 +1033,7 @@ func (c *postClient) PostCall(e *Engine, st *State, call *ast.CallExpr, callee *
 		return nil
 	}
 	ids := e.CallResults(call)
-	if len(ids) != 2 {
+	if len(ids) < 2 {
 		return nil
 	}
 	k := e.CanonSt(st, ids[0])
@@ -1043,10 +1047,10 @@ func (c *postClient) PostCall(e *Engine, st *State, call *ast.CallExpr, callee *
 }
 
 func (c *postClient) Return(e *Engine, st *State, ret *ast.ReturnStmt) {
-	if !e.Reporting() || e.Lit != nil || ret == nil || len(ret.Results) != 2 {
+	if !e.Reporting() || e.Lit != nil || ret == nil || len(ret.Results) < 2 {
 		return
 	}
-	if !isNilIdent(e.Info, ret.Results[1]) && !e.IsNil(st, ret.Results[1]) {
+	if last := ret.Results[len(ret.Results)-1]; !isNilIdent(e.Info, last) && !e.IsNil(st, last) {
 		return // failure return
 	}
 	c.returns++
@@ -1615,8 +1619,8 @@ func ruleC12Post(p *Program, r *Run) {
 	for _, fd := range AllFuncs(p.PQL) {
 		fn := FuncObj(p.PQL, fd)
 		sig := fn.Type().(*types.Signature)
-		if sig.Params().Len() > 0 && sig.Results().Len() == 2 && types.Identical(sig.Params().At(0).Type(), sqSig.Params().At(0).Type()) &&
-			types.Identical(sig.Results().At(0).Type(), sqSig.Results().At(0).Type()) && TypeStr(sig.Results().At(1).Type()) == "error" {
+		if sig.Params().Len() > 0 && sig.Results().Len() >= 2 && types.Identical(sig.Params().At(0).Type(), sqSig.Params().At(0).Type()) &&
+			types.Identical(sig.Results().At(0).Type(), sqSig.Results().At(0).Type()) && TypeStr(sig.Results().At(sig.Results().Len()-1).Type()) == "error" {
 			growers[fn] = fd
 		}
 	}
